@@ -152,3 +152,32 @@ def guard_clauses(sources, only=None):
         ast.fix_missing_locations(tree)
         out[mod] = ast.unparse(tree)
     return out
+
+
+def flip_comparisons(sources, only=None):
+    """``a < b`` -> ``b > a``, ``a == b`` -> ``b == a`` ... for single comparisons whose operands have
+    no calls (no evaluation-order effect); ``is`` / ``in`` are left alone"""
+    flip = {ast.Lt: ast.Gt, ast.Gt: ast.Lt, ast.LtE: ast.GtE, ast.GtE: ast.LtE, ast.Eq: ast.Eq,
+            ast.NotEq: ast.NotEq}
+
+    def simple(e):
+        return not any(isinstance(x, (ast.Call, ast.Await, ast.Yield, ast.NamedExpr)) for x in ast.walk(e))
+
+    class T(ast.NodeTransformer):
+        def visit_Compare(self, node):
+            self.generic_visit(node)
+            if len(node.ops) == 1 and type(node.ops[0]) in flip and simple(node.left) and \
+                    simple(node.comparators[0]):
+                return ast.copy_location(ast.Compare(left=node.comparators[0],
+                                                     ops=[flip[type(node.ops[0])]()],
+                                                     comparators=[node.left]), node)
+            return node
+    out = {}
+    for mod, text in sources.items():
+        if only is not None and mod not in only:
+            out[mod] = text
+            continue
+        tree = T().visit(ast.parse(text))
+        ast.fix_missing_locations(tree)
+        out[mod] = ast.unparse(tree)
+    return out
